@@ -5,7 +5,7 @@
                        "addl":null|b,"bases":[index of earlier class,…]}],
            "targets":[index,…], "imports":[[name,module],…]}
   Output: per target class the model's stub `__init__` / helper parameter lists, the model's runtime
-          signature, `_required`, constants, admits-extra and the two known-finding region predicates;
+          signature, `_required`, constants, admits-extra and the known-finding region predicate;
           the rendered extra-import lines.
 -/
 import TypedpyModel.Drive.Wire
@@ -48,9 +48,7 @@ def sigToJson (s : Sig) : Json := Json.mkObj [("params", paramsToJson s.params),
 
 def strsToJson (xs : List String) : Json := Json.arr (xs.map Json.str).toArray
 
-/-- same predicates as `Typedpy.C16.requiredOptional` / `inheritedAddlOn` (Props files are not imported by the driver) -/
-def requiredOptional (dflt : Bool) (c : ClassInfo) : Bool :=
-  (allFields c).any (fun f => !f.isConst && f.optShape && (clsRequired dflt c).contains f.name)
+/-- same predicate as `Typedpy.C16.inheritedAddlOn` (Props files are not imported by the driver) -/
 def inheritedAddlOn (dflt : Bool) (c : ClassInfo) : Bool :=
   !dflt && c.decl.addl.isNone && (addlLookup (mro c) == some true)
 
@@ -66,7 +64,6 @@ def report (dflt apd : Bool) (c : ClassInfo) : Json :=
     ("consts", strsToJson (constNames (allFields c))),
     ("fieldOrder", strsToJson ((allFields c).map (·.name))),
     ("admitsExtra", .bool (runtimeAdmitsExtra dflt c)),
-    ("requiredOptional", .bool (requiredOptional dflt c)),
     ("inheritedAddlOn", .bool (inheritedAddlOn dflt c)),
     ("mandatoryFirst", .bool (mandatoryFirst (stubInit dflt apd c).params))]
 
